@@ -13,6 +13,9 @@ RULE = ("one case = one library call chain on one generated input with every mon
         "-a, -b, -a(1-f)^2, down to -a}) checked against the closed form and then pushed through Reverse with all its monitors; "
         "nm: WGS84-like ellipsoids, |h| <= 5000 km, author's error measure; local: LocalCartesian objects (origins incl. poles, lon real, "
         "h0 in {0, +-1e7, terrain, +-1e-3..1e3 a}) each with a cloud of 8 geodetic points and 6 local points incl. the three axes; "
+        "hist: object histories -- 4..16 Reset calls on ONE LocalCartesian (default-constructed / constructed from a Geocentric / constructed with an origin): new origin, same lat/lon with "
+        "another height, same origin again, lon shifted by 360k, sign of a zero latitude, only lat or only lon changed, back to (0,0,h), Reset with the default h0, a copy reset elsewhere; "
+        "after every step the inspectors, Forward, Reverse and both matrices are compared bit for bit with a FRESH object built from the latest arguments, and the origin must map to (0,0,0); "
         "cli: the CartConvert tool (default, -e a f incl. a fraction / sphere / prolate, -l lat0 lon0 h0, -w, -r, -p) on 8 x 150 (quick) / 8 x 1500 lines in o2 and asan builds; "
         "class = section / regime of Geocentric::IntReverse (mirrored branch predicates) / inside-outside / ellipsoid shape; "
         "distinct = distinct hash of (class, a, f, inputs); trivial = oracle self-test cases")
@@ -33,7 +36,7 @@ RUNS = [
 MANIFEST = dict(
     technique="runtime oracle monitors (binary128 closed form next to every Forward; forward image + global least-distance certificate next to every Reverse; "
               "ENU frame from its definition next to every rotation matrix; rigid-motion model next to every LocalCartesian call), bit-exact law monitors "
-              "(M / M-less overloads, mirror symmetries, Reset == fresh object), output sentinels and range monitors; same workload in an ASan+UBSan build",
+              "(M / M-less overloads, mirror symmetries), history monitor (one LocalCartesian driven through random Reset sequences == fresh object after every step), output sentinels and range monitors; same workload in an ASan+UBSan build",
     text="Geocentric::Forward/Reverse and LocalCartesian::Forward/Reverse/Reset (with and without the rotation matrix) are executed on ~3e5 (quick) / ~1.4e7 (thorough) "
          "generated inputs over 49+random ellipsoids from f=0.99 to f=-9 and 40+ decades of |r|, with a directed catalogue for the centre, axis, equatorial plane, singular disc, "
          "evolute +-k ulp, cusps, far-field threshold and overflow, so that every branch of IntReverse (far field, far field with overflow, sphere, sphere with e^4 underflow, "
